@@ -437,3 +437,80 @@ pub proof fn lemma_store_frame(w: World, w1: World)
 {
     assert(sum_bal(w1) == sum_bal(w));
 }
+
+// ---- the token operations behind deposit / mint, in order ----
+pub open spec fn asset_in_op(w: World, assets: i128, from: Address, operator: Address) -> AOp {
+    if operator == from { AOp::Transfer { from: from, to: w.this, amount: assets } }
+    else { AOp::TransferFrom { spender: operator, from: from, to: w.this, amount: assets } }
+}
+/// [balance(vault) unless the converted amount is 0], then the transfer into the vault
+pub open spec fn enter_ops(w: World, wf: World, amount_in: i128, assets: i128, from: Address, operator: Address) -> Seq<AOp> {
+    let q = if amount_in != 0 { seq![AOp::Balance { id: w.this, answer: obs(w, wf, 0) }] } else { Seq::<AOp>::empty() };
+    q.push(asset_in_op(w, assets, from, operator))
+}
+/// the total assets an operation saw = the vault's balance in the asset ledger it ran on
+pub open spec fn assets_before(l0: AssetLedger, w: World) -> int { abal(l0, w.this) }
+
+/// deposit / mint: exact effect on the share book, the asset ledger and the call log
+pub proof fn lemma_enter_effect(w: World, wf: World, l0: AssetLedger, amount_in: i128, assets: i128, shares: i128,
+                                receiver: Address, from: Address, operator: Address)
+    requires
+        inv(w), ledger_inv(l0),
+        enter_guard(w, wf, amount_in, receiver, shares, operator),
+        from != w.this,
+        aops_ok(l0, enter_ops(w, wf, amount_in, assets, from, operator)),
+    ensures
+        ({
+            let w2 = enter_post(w, wf, amount_in, assets, shares, receiver, from, operator);
+            let ops = enter_ops(w, wf, amount_in, assets, from, operator);
+            let l1 = aops_run(l0, ops);
+            //@@ C01+C05:lemma.enter_mints_exactly_shares_to_receiver
+            &&& inv(w2) && supply(w2) == supply(w) + shares
+            &&& forall|a: Address| #[trigger] bal(w2, a) == bal(w, a) + (if a == receiver { shares as int } else { 0 })
+            &&& cur_offset(w2) == cur_offset(w) && cur_asset(w2) == cur_asset(w) && w2.this == w.this
+            //@@ C05:lemma.enter_calls_are_the_token_ops
+            &&& w2.calls =~= w.calls + aops_calls(cur_asset(w).unwrap(), ops)
+            //@@ C05:lemma.enter_moves_exactly_assets_from_payer_to_vault
+            &&& ledger_inv(l1) && assets >= 0
+            &&& forall|a: Address| #[trigger] abal(l1, a) == abal(l0, a) + (if a == w.this { assets as int } else { 0 }) - (if a == from { assets as int } else { 0 })
+            //@@ C05:lemma.enter_total_assets_is_vault_balance
+            &&& amount_in != 0 ==> obs(w_auth(w, operator), wf, 0) as int == abal(l0, w.this)
+            &&& shares >= 0
+        }),
+{
+    let w1 = w_auth(w, operator);
+    let wc = conv_post(w1, wf, amount_in);
+    let c = asset_in_call(wc, assets, from, operator);
+    let wx = xcall_w(wc, wf, c);
+    let wu = update_post(wx, None, Some(receiver), shares as int);
+    let w2 = enter_post(w, wf, amount_in, assets, shares, receiver, from, operator);
+    assert(w2 == w_event(wu, deposit_ev(operator, from, receiver, assets, shares)));
+    lemma_store_frame(w, wx);
+    lemma_store_frame(w, wc);
+    lemma_update_inv(wx, None, Some(receiver), shares as int);
+    lemma_update_keeps_config(wx, None, Some(receiver), shares as int);
+    lemma_store_frame(wu, w2);
+    assert forall|a: Address| #[trigger] bal(w2, a) == bal(w, a) + (if a == receiver { shares as int } else { 0 }) by {
+        assert(bal(w2, a) == bal(wu, a));
+        assert(bal(wx, a) == bal(w, a));
+    }
+    // the asset ledger
+    let e0 = Seq::<AOp>::empty();
+    let ob = AOp::Balance { id: w.this, answer: obs(w, wf, 0) };
+    let ot = asset_in_op(w, assets, from, operator);
+    assert(aops_run(l0, e0) == l0 && aops_ok(l0, e0));
+    assert(obs(w1, wf, 0) == obs(w, wf, 0));
+    let tok = cur_asset(w).unwrap();
+    if amount_in != 0 {
+        lemma_aops_push(l0, e0, ob);
+        lemma_aops_push(l0, e0.push(ob), ot);
+        assert(seq![ob] =~= e0.push(ob));
+        lemma_aop_effect(l0, ob);
+        lemma_aop_effect(aops_run(l0, e0.push(ob)), ot);
+        assert(w2.calls =~= w.calls + aops_calls(tok, enter_ops(w, wf, amount_in, assets, from, operator)));
+    } else {
+        lemma_aops_push(l0, e0, ot);
+        lemma_aop_effect(l0, ot);
+        assert(w2.calls =~= w.calls + aops_calls(tok, enter_ops(w, wf, amount_in, assets, from, operator)));
+    }
+}
